@@ -118,79 +118,20 @@ Definition unnorm_out_ok (th y mean var eps s x : Q) : bool :=
 
 Definition vn_run_red := vn_run update_red Qred.
 
-(* ---- trace checker: run the history and compare with what the implementation showed after every
-   operation; everything is decided inside Coq.  tol = tolerance for the observation statistics (1e-9 when the
-   float32 batch moments are exact, 1e-5 otherwise); return statistics 1e-9; float32 outputs 1e-5 ---- *)
-Record opcheck := mk_ck {
-  k_obs_stats : list (option (Q * Q * Q * Q)); (* per channel: impl (mean, var, count, hint s ~ sqrt(var+eps)); None = not normalised *)
-  k_ret_stats : Q * Q * Q * Q;
-  k_returns : list Q;
-  k_out_obs : list (list Q);                   (* per env, per channel: returned observation ([] = not checked here) *)
-  k_out_term : list (option (list Q * list Q)); (* per env: raw terminal observation, returned terminal observation *)
-  k_unnorm : list (list Q);                    (* per env, per channel: unnormalize_obs(returned observation) *)
-  k_out_rews : list Q }.                       (* per env: returned reward ([] = not checked here) *)
-
-Definition tol9 : Q := 1 # 1000000000.
-
-Fixpoint stats_ok (tol : Q) (ms : list rms) (is_ : list (option (Q * Q * Q * Q))) : bool :=
-  match ms, is_ with
-  | m :: ms', Some (im, iv, ic, _) :: is' => rms_close tol tol m im iv ic && stats_ok tol ms' is'
-  | _ :: ms', None :: is' => stats_ok tol ms' is'
-  | [], [] => true
-  | _, _ => false
-  end.
-
-(* one observation vector against the returned one, channel by channel *)
-Fixpoint vec_ok (f : rms -> Q -> Q -> Q -> bool) (ms : list rms) (is_ : list (option (Q * Q * Q * Q))) (xs ys : list Q) : bool :=
-  match ms, is_, xs, ys with
-  | m :: ms', Some (_, _, _, s) :: is', x :: xs', y :: ys' => f m s x y && vec_ok f ms' is' xs' ys'
-  | _ :: ms', None :: is', _ :: xs', _ :: ys' => vec_ok f ms' is' xs' ys'
-  | [], [], [], [] => true
-  | _, _, _, _ => false
-  end.
-
-Fixpoint all2 {A B} (f : A -> B -> bool) (a : list A) (b : list B) : bool :=
-  match a, b with
-  | x :: a', y :: b' => f x y && all2 f a' b'
-  | _, _ => true
-  end.
-
-Definition op_obs (o : vnop) : list (list Q) := match o with OReset obs | OStep obs _ _ => obs | OSet _ _ _ => [] end.
-Definition op_rews (o : vnop) : list Q := match o with OStep _ rews _ => rews | _ => [] end.
-
-Definition check_state (tol : Q) (p : vnp) (st : vn) (o : vnop) (k : opcheck) : list bool :=
-  let ms := v_obs_rms st in
-  let th := 4 * tol + (1 # 100000000) in
-  let fn := fun (m : rms) (s x y : Q) => norm_out_ok th x (r_mean m) (r_var m) (p_eps p) s (p_clip_obs p) y in
-  let fu := fun (m : rms) (s y x : Q) => unnorm_out_ok th y (r_mean m) (r_var m) (p_eps p) s x in
-  [ stats_ok tol ms (k_obs_stats k);
-    (let '(im, iv, ic, _) := k_ret_stats k in rms_close tol9 tol9 (v_ret_rms st) im iv ic);
-    forallb (fun b => b) (qclose_list tol9 tol9 (v_returns st) (k_returns k));
-    all2 (vec_ok fn ms (k_obs_stats k)) (op_obs o) (k_out_obs k)
-    && forallb (fun t => match t with Some (x, y) => vec_ok fn ms (k_obs_stats k) x y | None => true end) (k_out_term k);
-    (let '(_, _, _, s) := k_ret_stats k in
-     all2 (fun r y => norm_out_ok (1 # 100000000) r 0 (r_var (v_ret_rms st)) (p_eps p) s (p_clip_rew p) y) (op_rews o) (k_out_rews k));
-    all2 (vec_ok fu ms (k_obs_stats k)) (k_out_obs k) (k_unnorm k) ].
-
-Fixpoint vn_trace (tol : Q) (p : vnp) (st : vn) (ops : list (vnop * opcheck)) : list (list bool) :=
-  match ops with
-  | [] => []
-  | (o, k) :: rest => let st' := vn_op update_red Qred p st o in check_state tol p st' o k :: vn_trace tol p st' rest
-  end.
-
-(* RunningMeanStd alone: batches through update, then other statistics through combine *)
-Definition rms_trace (eps : Q) (bs : list (list Q)) (others : list (list (list Q))) (im iv ic : Q) : bool :=
-  let a := fold_left update_red bs (rms_init eps) in
-  let a' := fold_left (fun acc obs => let o := fold_left update_red obs (rms_init eps) in
-                         let c := rms_combine acc o in mk_rms (Qred (r_mean c)) (Qred (r_var c)) (Qred (r_count c))) others a in
-  rms_close tol9 tol9 a' im iv ic.
-
 (* ---- what step_wait / reset return (extension): observations and terminal observations go through ONE function,
    normalize_obs, with the statistics AFTER this operation's update; ss = sqrt(var + eps) per channel (hints) ---- *)
 Fixpoint norm_vec (p : vnp) (norm_obs : bool) (chans : list bool) (ms : list rms) (ss x : list Q) : list Q :=
   match chans, ms, ss, x with
   | c :: chans', m :: ms', s :: ss', v :: x' =>
       (if norm_obs && c then normalize_s v (r_mean m) s (p_clip_obs p) else v) :: norm_vec p norm_obs chans' ms' ss' x'
+  | _, _, _, _ => []
+  end.
+
+(* unnormalize_obs: the inverse expression on the normalised channels *)
+Fixpoint norm_unvec (p : vnp) (norm_obs : bool) (chans : list bool) (ms : list rms) (ss y : list Q) : list Q :=
+  match chans, ms, ss, y with
+  | c :: chans', m :: ms', s :: ss', v :: y' =>
+      (if norm_obs && c then unnormalize_s v (r_mean m) s else v) :: norm_unvec p norm_obs chans' ms' ss' y'
   | _, _, _, _ => []
   end.
 
@@ -209,3 +150,111 @@ Definition step_outputs (p : vnp) (st : vn) (obs : list (list Q)) (rews : list Q
   (st', mk_out (map (normalize_obs_model p st' ss) obs)
                (map (fun dt => term_out p st' ss (fst dt) (snd dt)) (combine dones terms))
                (map (fun r => if v_norm_reward st' then normalize_reward_s r sr (p_clip_rew p) else r) rews)).
+
+(* ---- trace checker: run the history and compare with what the implementation showed after every operation;
+   everything is decided inside Coq, through the model's own output functions (normalize_obs_model, term_out,
+   v_old_obs / v_old_rew, and at the end unpickle_pickle and sync).  tol = tolerance for the observation statistics
+   (1e-9 when the float32 batch moments are exact, 1e-5 otherwise); return statistics 1e-9; float32 outputs 1e-5 ---- *)
+Record opcheck := mk_ck {
+  k_obs_stats : list (option (Q * Q * Q * Q)); (* per channel: impl (mean, var, count, hint s ~ sqrt(var+eps)); None = not normalised *)
+  k_ret_stats : Q * Q * Q * Q;
+  k_returns : list Q;
+  k_out_obs : list (list Q);                   (* per env, per channel: returned observation *)
+  k_out_term : list (option (list Q * list Q)); (* per env: raw terminal observation, returned terminal observation (done envs) *)
+  k_unnorm : list (list Q);                    (* per env, per channel: unnormalize_obs(returned observation) ([] = not checked) *)
+  k_out_rews : list Q;                         (* per env: returned reward *)
+  k_orig_obs : list (list Q);                  (* get_original_obs() *)
+  k_orig_rew : list Q }.                       (* get_original_reward() ([] after a reset) *)
+
+Definition tol9 : Q := 1 # 1000000000.
+
+Fixpoint stats_ok (tol : Q) (ms : list rms) (is_ : list (option (Q * Q * Q * Q))) : bool :=
+  match ms, is_ with
+  | m :: ms', Some (im, iv, ic, _) :: is' => rms_close tol tol m im iv ic && stats_ok tol ms' is'
+  | _ :: ms', None :: is' => stats_ok tol ms' is'
+  | [], [] => true
+  | _, _ => false
+  end.
+
+(* the hints of the normalised channels are square roots of the model's var + eps *)
+Fixpoint hints_ok (th eps : Q) (ms : list rms) (is_ : list (option (Q * Q * Q * Q))) : bool :=
+  match ms, is_ with
+  | m :: ms', Some (_, _, _, s) :: is' => sqrt_hint_ok th s (r_var m) eps && hints_ok th eps ms' is'
+  | _ :: ms', None :: is' => hints_ok th eps ms' is'
+  | _, _ => true
+  end.
+Definition hints_of (is_ : list (option (Q * Q * Q * Q))) : list Q :=
+  map (fun o => match o with Some (_, _, _, s) => s | None => 1 end) is_.
+
+Fixpoint all2 {A B} (f : A -> B -> bool) (a : list A) (b : list B) : bool :=
+  match a, b with
+  | x :: a', y :: b' => f x y && all2 f a' b'
+  | [], [] => true
+  | _, _ => false
+  end.
+Definition close5 (m i : Q) : bool := qclose (1 # 100000) (1 # 1000000) m i.
+Definition vec_close (m i : list Q) : bool := all2 close5 m i.
+Definition vec_eq (m i : list Q) : bool := all2 Qeq_bool m i.
+
+Definition op_obs (o : vnop) : list (list Q) := match o with OReset obs | OStep obs _ _ => obs | OSet _ _ _ => [] end.
+Definition op_rews (o : vnop) : list Q := match o with OStep _ rews _ => rews | _ => [] end.
+Definition op_dones (o : vnop) : list bool := match o with OStep _ _ dones => dones | _ => [] end.
+Definition is_set (o : vnop) : bool := match o with OSet _ _ _ => true | _ => false end.
+
+Definition check_state (tol : Q) (p : vnp) (st : vn) (o : vnop) (k : opcheck) : list bool :=
+  let ms := v_obs_rms st in
+  let th := 4 * tol + (1 # 100000000) in
+  let ss := hints_of (k_obs_stats k) in
+  let '(_, _, _, sr) := k_ret_stats k in
+  [ stats_ok tol ms (k_obs_stats k);
+    (let '(im, iv, ic, _) := k_ret_stats k in rms_close tol9 tol9 (v_ret_rms st) im iv ic);
+    forallb (fun b => b) (qclose_list tol9 tol9 (v_returns st) (k_returns k));
+    (* returned observations and terminal observations = the model's normalize_obs_model / term_out *)
+    is_set o ||
+    (hints_ok th (p_eps p) ms (k_obs_stats k)
+     && all2 (fun x y => vec_close (normalize_obs_model p st ss x) y) (op_obs o) (k_out_obs k)
+     && all2 (fun d t => match t with
+                         | Some (x, y) => match term_out p st ss d (Some x) with Some z => d && vec_close z y | None => false end
+                         | None => true
+                         end) (op_dones o) (k_out_term k));
+    (* returned rewards *)
+    all2 (fun r y => close5 (if v_norm_reward st then normalize_reward_s r sr (p_clip_rew p) else r) y) (op_rews o) (k_out_rews k)
+    && (negb (v_norm_reward st) || Qle_bool 0 sr && qclose (1 # 100000000) 0 (r_var (v_ret_rms st) + p_eps p) (sr * sr));
+    (* unnormalize_obs of the returned observation *)
+    match k_unnorm k with
+    | [] => true
+    | us => all2 (fun y u => vec_close (norm_unvec p (v_norm_obs st) (p_chans p) ms ss y) u) (k_out_obs k) us
+    end;
+    (* get_original_obs / get_original_reward = the raw values of the latest step (old_obs / old_reward of the model) *)
+    is_set o || (all2 vec_eq (v_old_obs st) (k_orig_obs k) && (match o with OStep _ _ _ => vec_eq (v_old_rew st) (k_orig_rew k) | _ => true end)) ].
+
+(* what save/load and sync_envs_normalization must show, checked on the model's unpickle_pickle / sync at the end *)
+Record fincheck := mk_fin {
+  f_loaded_stats : list (option (Q * Q * Q * Q)); f_loaded_ret : Q * Q * Q * Q; f_loaded_returns : list Q;
+  f_synced_stats : list (option (Q * Q * Q * Q)); f_synced_ret : Q * Q * Q * Q }.
+
+Definition final_check (tol : Q) (st : vn) (n_envs : nat) (other : vn) (f : fincheck) : list bool :=
+  let l := unpickle_pickle st n_envs in
+  let s := sync st other in
+  [ stats_ok tol (v_obs_rms l) (f_loaded_stats f);
+    (let '(im, iv, ic, _) := f_loaded_ret f in rms_close tol9 tol9 (v_ret_rms l) im iv ic);
+    vec_eq (v_returns l) (f_loaded_returns f);
+    stats_ok tol (v_obs_rms s) (f_synced_stats f);
+    (let '(im, iv, ic, _) := f_synced_ret f in rms_close tol9 tol9 (v_ret_rms s) im iv ic) ].
+
+Fixpoint vn_trace (tol : Q) (p : vnp) (st : vn) (ops : list (vnop * opcheck)) (n_envs : nat) (other : vn) (f : fincheck)
+  : list (list bool) * list bool :=
+  match ops with
+  | [] => ([], final_check tol st n_envs other f)
+  | (o, k) :: rest =>
+      let st' := vn_op update_red Qred p st o in
+      let '(rows, fin) := vn_trace tol p st' rest n_envs other f in
+      (check_state tol p st' o k :: rows, fin)
+  end.
+
+(* RunningMeanStd alone: batches through update, then other statistics through combine *)
+Definition rms_trace (eps : Q) (bs : list (list Q)) (others : list (list (list Q))) (im iv ic : Q) : bool :=
+  let a := fold_left update_red bs (rms_init eps) in
+  let a' := fold_left (fun acc obs => let o := fold_left update_red obs (rms_init eps) in
+                         let c := rms_combine acc o in mk_rms (Qred (r_mean c)) (Qred (r_var c)) (Qred (r_count c))) others a in
+  rms_close tol9 tol9 a' im iv ic.
